@@ -15,8 +15,10 @@ type ValGen struct {
 	label  int
 	cells  map[string][]string // type string -> labels of cells built so far in this value (for sharing)
 	Poison map[string]bool     // basic payloads that make fallible custom functions fail
-	// Mode: 0 = zero/nil everywhere, 1 = non-nil and minimal, 2.. = random
+	// Mode: 0 = zero/nil everywhere, 1 = non-nil and minimal, 2 = non-nil containers with two elements whose inner
+	// pointers alternate between nil and non-nil (nil leaves inside live containers), 3.. = random
 	Mode     int
+	alt      int
 	MaxDepth int
 	Share    int // percent chance to reuse an existing cell of the same type
 }
@@ -101,10 +103,16 @@ func (g *ValGen) val(t types.Type, depth int) *sx.Node {
 	if n, ok := t.(*types.Named); ok {
 		named = n
 	}
-	nilable := g.Mode == 0 || depth >= g.MaxDepth || (g.Mode >= 2 && g.R.Chance(22))
+	nilable := g.Mode == 0 || depth >= g.MaxDepth || (g.Mode >= 3 && g.R.Chance(22))
+	if g.Mode == 2 && depth >= 1 && depth < g.MaxDepth {
+		if _, isPtr := t.Underlying().(*types.Pointer); isPtr {
+			g.alt++
+			nilable = g.alt%2 == 1
+		}
+	}
 	reuse := func(kind string) *sx.Node {
 		ls := g.cells[t.String()]
-		if g.Mode >= 2 && len(ls) > 0 && g.R.Chance(g.Share) {
+		if g.Mode >= 3 && len(ls) > 0 && g.R.Chance(g.Share) {
 			_ = kind
 			return sx.H("ref", sx.A(rng.Pick(g.R, ls)))
 		}
@@ -133,7 +141,10 @@ func (g *ValGen) val(t types.Type, depth int) *sx.Node {
 		}
 		l := g.fresh()
 		n := 1
-		if g.Mode >= 2 {
+		if g.Mode == 2 {
+			n = 2
+		}
+		if g.Mode >= 3 {
 			n = g.R.Intn(4)
 		}
 		out := sx.H("sl", sx.A(l))
@@ -156,7 +167,10 @@ func (g *ValGen) val(t types.Type, depth int) *sx.Node {
 		}
 		l := g.fresh()
 		n := 1
-		if g.Mode >= 2 {
+		if g.Mode == 2 {
+			n = 2
+		}
+		if g.Mode >= 3 {
 			n = g.R.Intn(3)
 		}
 		out := sx.H("mp", sx.A(l))
